@@ -18,6 +18,7 @@ mod bodies;
 mod capture;
 mod clibodies;
 mod clidirs;
+mod clifs;
 mod clipart;
 mod pkgs;
 mod parta;
@@ -41,6 +42,8 @@ const PATHY_FLAVOUR_WIDE: usize = 3;
 enum Unit {
     Cli,
     CliDirs,
+    /// file-system family: module entries / path spellings / stdout targets
+    CliFs { family: usize },
     /// `check` / `test` on richer test bodies, one unit per position
     CliBodies { position: usize },
     Callers,
@@ -81,6 +84,9 @@ fn enumerated(tier: Tier, shape: usize, k: usize, flavour: usize) -> bool {
 fn unit_table(tier: Tier) -> Vec<Unit> {
     // the process launches take longest and run in one worker: start them first
     let mut v = vec![Unit::Cli, Unit::CliDirs, Unit::Callers];
+    for family in 0..clifs::FAMILIES.len() {
+        v.push(Unit::CliFs { family });
+    }
     for position in 0..clibodies::N_UNITS {
         v.push(Unit::CliBodies { position });
     }
@@ -136,6 +142,7 @@ impl Check for C19 {
         match unit_table(cx.cfg.tier)[unit].clone() {
             Unit::Cli => clipart::run(cx),
             Unit::CliDirs => clidirs::run(cx),
+            Unit::CliFs { family } => clifs::run(family, cx),
             Unit::CliBodies { position } => clibodies::run(position, cx),
             Unit::Callers => {
                 if !cx.case(SUB_SETUP) {
@@ -186,6 +193,7 @@ impl Check for C19 {
         match unit_table(cfg.tier)[unit].clone() {
             Unit::Cli => clipart::describe(sub),
             Unit::CliDirs => clidirs::describe(sub),
+            Unit::CliFs { family } => clifs::describe(family, sub),
             Unit::CliBodies { position } => clibodies::describe(position, sub),
             Unit::Callers => {
                 if sub == SUB_SETUP {
@@ -210,20 +218,51 @@ impl Check for C19 {
             }
         }
     }
-    fn matches(&self, _f: &Finding, _v: &Violation) -> bool {
-        false
+    fn matches(&self, f: &Finding, v: &Violation) -> bool {
+        let c = &v.case;
+        let s = |x: &Value| x.as_str().unwrap_or("").to_string();
+        let stderr = s(&v.observed["stderr"]);
+        match f.matcher.as_str() {
+            // FileTree::find_files does not follow a symbolic link to a
+            // module directory: the module is left out without a diagnostic
+            "symlinked_module_dir_dropped" => {
+                v.class == "cli_module_skipped"
+                    && c["kind"] == "cli_fs_entry"
+                    && ["symlink_to_directory", "symlinked_directory_in_module_directory"]
+                        .contains(&s(&c["entry"]).as_str())
+            }
+            // SourceFile::read_internal wants a named parent directory for a
+            // file called mod.roto
+            "bare_mod_roto_invalid_path" => {
+                v.class == "cli_exit_status"
+                    && c["kind"] == "cli_fs_path"
+                    && c["file_name"] == "mod.roto"
+                    && ["bare", "dot_slash"].contains(&s(&c["spelling"]).as_str())
+                    && stderr.contains("invalid path")
+            }
+            // println! panics when stdout cannot be written
+            "stdout_write_error_panics" => {
+                v.class == "cli_crash"
+                    && c["kind"] == "cli_fs_stdout"
+                    && ["dev_full", "closed_pipe"].contains(&s(&c["stdout_target"]).as_str())
+                    && ["check", "test"].contains(&s(&c["subcommand"]).as_str())
+                    && s(&v.observed["stderr_head"]).contains("failed printing to stdout")
+            }
+            _ => false,
+        }
     }
     fn meta(&self, cfg: &Cfg) -> Meta {
         let kmax = cfg.tier.pick(4, 6);
         Meta {
             rule: format!(
-                "Part A: every package = (module tree of 1-3 modules, k <= {kmax} test blocks, module of every block, accept/reject of every block, flavour); all M^k placements x 2^k outcome vectors x {} flavours (trees 0-3: k = 5 flavours {:?}, k = 6 flavours {K6_FLAVOURS:?}; quick tier, k = 4: flavours {:?}; trees 4-9, whose module names collide with the path machinery (pkg.pkg, pkg.pkg.pkg, test, super_, std, dep, a/ab, a_b/b): quick flavours {PATHY_FLAVOURS_QUICK:?} for k <= 3 and, trees 4-5 only, flavour {PATHY_FLAVOUR_WIDE} for k = 4, thorough flavours {PATHY_FLAVOURS_THOROUGH:?} for k <= 4, and, trees 4-5 only, flavour {PATHY_FLAVOUR_WIDE} for k = 5 and k = 6); compiled twice, run_tests twice per compilation, every TestCase of get_tests run once, get_function with two signatures for every test/function name. Callers: every (place, call form, kind of same-named function, outcome). Part B: every (sub-command form, file kind) pair, one process launch each; second unit: three directory packages with colliding sub-module names (pkg/mod.roto and pkg/pkg/mod.roto; test, super_, std, dep; a, ab, a_b, a_b.b), a `test foo` in every module, every accept/reject vector over the modules under `roto test <dir>` (check and run on the all-reject and all-accept vectors). Body family (bodies.rs): (12 well-typed test bodies x pass/fail + 6 ill-typed bodies) x (nothing | fn before the block) x (nothing | fn | filtermap | const | test after it) x 5 placements (only module; root or sub-module of a two-module tree, other module empty or not), Part A with an extra parse+typecheck-only run, Part B `check` and `test` on each body in each of the 10 single-file positions and as last item of the root / sub-module of a directory package. Non-trivial: a package with at least one accepting and one rejecting block; every caller case; a launch that must fail or that must run an entry function",
+                "Part A: every package = (module tree of 1-3 modules, k <= {kmax} test blocks, module of every block, accept/reject of every block, flavour); all M^k placements x 2^k outcome vectors x {} flavours (trees 0-3: k = 5 flavours {:?}, k = 6 flavours {K6_FLAVOURS:?}; quick tier, k = 4: flavours {:?}; trees 4-9, whose module names collide with the path machinery (pkg.pkg, pkg.pkg.pkg, test, super_, std, dep, a/ab, a_b/b): quick flavours {PATHY_FLAVOURS_QUICK:?} for k <= 3 and, trees 4-5 only, flavour {PATHY_FLAVOUR_WIDE} for k = 4, thorough flavours {PATHY_FLAVOURS_THOROUGH:?} for k <= 4, and, trees 4-5 only, flavour {PATHY_FLAVOUR_WIDE} for k = 5 and k = 6); compiled twice, run_tests twice per compilation, every TestCase of get_tests run once, get_function with two signatures for every test/function name. Callers: every (place, call form, kind of same-named function, outcome). Part B: every (sub-command form, file kind) pair, one process launch each; second unit: three directory packages with colliding sub-module names (pkg/mod.roto and pkg/pkg/mod.roto; test, super_, std, dep; a, ab, a_b, a_b.b), a `test foo` in every module, every accept/reject vector over the modules under `roto test <dir>` (check and run on the all-reject and all-accept vectors). Body family (bodies.rs): (12 well-typed test bodies x pass/fail + 6 ill-typed bodies) x (nothing | fn before the block) x (nothing | fn | filtermap | const | test after it) x 5 placements (only module; root or sub-module of a two-module tree, other module empty or not), Part A with an extra parse+typecheck-only run, Part B `check` and `test` on each body in each of the 10 single-file positions and as last item of the root / sub-module of a directory package. File-system family (clifs.rs): 10 ways a module exists on disk (regular / symbolic link to file / to directory / dangling, at two depths, linked mod.roto, linked root) x module holds (accepting test, rejecting test, type error) x (test, check); path spelling (bare, ./, ../dir/, absolute) x (x.roto, mod.roto, pkg.roto, directory) x (check, test, run); stdout (file, /dev/full, closed pipe) x (check, test, run). Non-trivial: a package with at least one accepting and one rejecting block; every caller case; a launch that must fail or that must run an entry function",
                 FLAVOURS.len(),
                 WIDE_FLAVOURS,
                 QUICK_K4_FLAVOURS
             ),
             assumptions: vec![
                 "a script that cannot be read or does not compile must make every sub-command fail (the statement names only `check`)".into(),
+                "a module reached through a symbolic link must be loaded or refused with a report; a dangling link may be ignored or reported".into(),
                 "the order of test execution may be any order, as long as it is the same in every run and every compilation".into(),
                 "two tests of one module with the same name: either a compile error (\"the name must be unique\") or full correct behaviour".into(),
                 "the wording of run_tests' printed report is not specified: its per-test status and totals are compared only where the text has the shape `<path>... ok|fail`".into(),
@@ -238,6 +277,11 @@ impl Check for C19 {
                 "bodies": (0..bodies::N_BODIES).map(|b| bodies::body(b).name).collect::<Vec<_>>(),
                 "body_positions": (0..bodies::N_POSITIONS).map(bodies::position_name).collect::<Vec<_>>(),
                 "body_placements_part_a": bodies::PLACEMENTS.len(),
+                "cli_fs_entries": clifs::ENTRIES,
+                "cli_fs_module_contents": clifs::CONTENTS,
+                "cli_fs_path_spellings": clifs::SPELLINGS,
+                "cli_fs_path_names": clifs::PATH_NAMES,
+                "cli_fs_stdout_targets": ["file", "dev_full", "closed_pipe"],
                 "cli_body_units": (0..clibodies::N_UNITS).map(clibodies::unit_name).collect::<Vec<_>>(),
                 "cli_forms": clipart::FORMS.iter().map(|(c, a)| format!("{c} <file> {}", a.join(" "))).collect::<Vec<_>>(),
                 "cli_file_kinds": clipart::kinds().iter().map(|k| k.name).collect::<Vec<_>>(),
